@@ -25,9 +25,46 @@ import (
 
 const (
 	verifDir = "/verif"
-	repoDir  = "/repo"
 	hDir     = "/verif/h"
 )
+
+// repoDir is the tree under test. Registered checks always use /repo; VERIF_REPO lets a developer
+// run (seedcheck.sh) point the same machinery at a scratch worktree while long runs use /repo.
+var repoDir = func() string {
+	if r := os.Getenv("VERIF_REPO"); r != "" {
+		return r
+	}
+	return "/repo"
+}()
+
+// altModfile writes a go.mod whose replace directives point at repoDir (only for VERIF_REPO runs).
+func altModfile(work string) (string, error) {
+	if repoDir == "/repo" {
+		return "", nil
+	}
+	b, err := os.ReadFile(filepath.Join(hDir, "go.mod"))
+	if err != nil {
+		return "", err
+	}
+	s := strings.ReplaceAll(string(b), "=> /repo/v2", "=> "+repoDir+"/v2")
+	s = strings.ReplaceAll(s, "=> /repo\n", "=> "+repoDir+"\n")
+	mf := filepath.Join(work, "alt.mod")
+	if err := os.WriteFile(mf, []byte(s), 0o644); err != nil {
+		return "", err
+	}
+	sum, _ := os.ReadFile(filepath.Join(hDir, "go.sum"))
+	os.WriteFile(filepath.Join(work, "alt.sum"), sum, 0o644)
+	return mf, nil
+}
+
+func goEnvFor(work string) []string {
+	env := append([]string(nil), goEnv...)
+	if mf, err := altModfile(work); err == nil && mf != "" {
+		env[0] = "GOFLAGS=-mod=mod -modfile=" + mf
+		env = append(env, "VERIF_MODFILE="+mf, "VERIF_REPO="+repoDir)
+	}
+	return env
+}
 
 // Job is one harness invocation (possibly sharded over several processes).
 type Job struct {
@@ -119,7 +156,7 @@ func makeOverlay(work, instr string) (string, error) {
 	}
 	// go-diff clock seam: time.Now() in diff.go reads a frozen harness clock,
 	// so the 1 s DiffTimeout never fires and results do not depend on load.
-	if src, err := goDiffFile(); err == nil {
+	if src, err := goDiffFile(work); err == nil {
 		b, err := os.ReadFile(src)
 		if err != nil {
 			return "", err
@@ -142,7 +179,7 @@ func makeOverlay(work, instr string) (string, error) {
 		os.MkdirAll(out, 0o755)
 		cmd := exec.Command(filepath.Join(hDir, "bin", "vinstr"), "-profile", prof, "-out", out)
 		cmd.Dir = hDir
-		cmd.Env = append(os.Environ(), goEnv...)
+		cmd.Env = append(os.Environ(), goEnvFor(work)...)
 		b, err := cmd.CombinedOutput()
 		if err != nil {
 			return "", fmt.Errorf("vinstr %s: %v\n%s", prof, err, b)
@@ -162,10 +199,10 @@ func makeOverlay(work, instr string) (string, error) {
 	return path, os.WriteFile(path, b, 0o644)
 }
 
-func goDiffFile() (string, error) {
+func goDiffFile(work string) (string, error) {
 	cmd := exec.Command("go", "list", "-f", "{{.Dir}}", "github.com/sergi/go-diff/diffmatchpatch")
 	cmd.Dir = hDir
-	cmd.Env = append(os.Environ(), goEnv...)
+	cmd.Env = append(os.Environ(), goEnvFor(work)...)
 	b, err := cmd.Output()
 	if err != nil {
 		return "", fmt.Errorf("go list go-diff: %v", err)
@@ -189,7 +226,7 @@ func build(work string, k buildKey, overlay string) (string, error) {
 	args = append(args, k.pkg)
 	cmd := exec.Command("go", args...)
 	cmd.Dir = hDir
-	cmd.Env = append(os.Environ(), goEnv...)
+	cmd.Env = append(os.Environ(), goEnvFor(work)...)
 	b, err := cmd.CombinedOutput()
 	if err != nil {
 		return "", fmt.Errorf("build %s: %v\n%s", k.pkg, err, b)
@@ -258,7 +295,7 @@ func runWorker(bin string, id, tier string, j Job, shard int, out string, deadli
 	if procs == 0 {
 		procs = 1
 	}
-	cmd.Env = append(os.Environ(),
+	cmd.Env = append(append(os.Environ(), goEnvFor(filepath.Dir(out))[1:]...),
 		"VERIF_PROPERTY="+id, "VERIF_HARNESS="+j.Harness, "VERIF_TIER="+tier,
 		"VERIF_SHARD="+strconv.Itoa(shard), "VERIF_SHARDS="+strconv.Itoa(j.Shards),
 		"VERIF_OUT="+out, "VERIF_PARAMS="+withInstr(j), "VERIF_REPLAY=",
@@ -476,6 +513,9 @@ func runCheck(id, tier, only string, keep bool) int {
 	}
 	if len(newVios) > 0 {
 		rdir := filepath.Join(verifDir, "replays", id)
+		if repoDir != "/repo" {
+			rdir = filepath.Join(verifDir, ".work", "alt-replays", id)
+		}
 		os.MkdirAll(rdir, 0o755)
 		var all strings.Builder
 		for _, v := range newVios {
@@ -690,6 +730,9 @@ func keysOf(m map[string]bool) []string {
 
 func writeEvidence(id string, ev map[string]interface{}) {
 	dir := filepath.Join(verifDir, "evidence")
+	if repoDir != "/repo" {
+		dir = filepath.Join(verifDir, ".work", "alt-evidence")
+	}
 	os.MkdirAll(dir, 0o755)
 	b, _ := json.MarshalIndent(ev, "", " ")
 	os.WriteFile(filepath.Join(dir, id+".json"), b, 0o644)
